@@ -14,7 +14,7 @@ a live block's table was introduced by a declaration of the root stack.
 -/
 namespace SemVerif
 
-theorem declValues_append (l : List Instr) (i : Instr) :
+theorem declValues_snoc12 (l : List Instr) (i : Instr) :
     declValues (l ++ [i]) = declValues l ++ (match i.declares with | some v => [v] | none => []) := by
   unfold declValues
   rw [List.filterMap_append]
@@ -60,7 +60,7 @@ theorem nameInv_push {s : St} (h : NameInv s) (i : Instr) (hd : i.declares = non
     (hu : ∀ v, i.usesValue = some v → ∃ n, s.lookupValue n = some v) : NameInv (s.push i) := by
   have hctx : (s.push i).root.context = s.root.context ++ [i] := rfl
   have hdv : declValues (s.push i).root.context = declValues s.root.context := by
-    rw [hctx, declValues_append, hd]; simp
+    rw [hctx, declValues_snoc12, hd]; simp
   refine ⟨?_, ?_, ?_, ?_, ?_⟩
   · intro b hb
     simp [St.push, St.mapFrames] at hb ⊢
@@ -153,7 +153,7 @@ theorem nameInv_declare {s : St} (h : NameInv s) (n : Name) (v : Value) (i : Ins
     unfold St.push St.registerInner St.mapFrames St.insertValue St.mapCur
     cases s.inner <;> rfl
   have hdv : declValues (s.root.context ++ [i]) = declValues s.root.context ++ [v] := by
-    rw [declValues_append, hi]
+    rw [declValues_snoc12, hi]
   refine ⟨?_, ?_, ?_, ?_, ?_⟩
   · intro b hb
     rw [hnames]
